@@ -166,7 +166,15 @@ ensures
                    && hm_key_mutated(old(m)@, final(m)@, k, *final(v)),
         None => !vstd::std_specs::hash::contains_borrowed_key(old(m)@, k) && final(m)@ == old(m)@,
     };
+// ToString for String / char (vstd specifies the blanket impl only for str)
+#[verifier::external_body]
+pub broadcast proof fn axiom_to_string_string(t: &String, res: String)
+    ensures #[trigger] vstd::string::to_string_from_display_ensures::<String>(t, res) <==> t@ == res@ {}
+#[verifier::external_body]
+pub broadcast proof fn axiom_to_string_char(t: &char, res: String)
+    ensures #[trigger] vstd::string::to_string_from_display_ensures::<char>(t, res) <==> res@ == seq![*t] {}
 pub broadcast group group_string_keys {
+    axiom_to_string_string, axiom_to_string_char,
     axiom_hm_deref_key_mutated, axiom_string_partial_cmp,
     axiom_string_ext, axiom_string_of, axiom_string_obeys_key_model, axiom_contains_str_key, axiom_maps_str_key_to_value,
 }
@@ -248,11 +256,21 @@ pub assume_specification [<Node as Clone>::clone](v: &Node) -> (r: Node) ensures
 #[verifier::external_body]
 #[verifier::reject_recursive_types(I)]
 pub struct ExPeekable<I: Iterator>(std::iter::Peekable<I>);
-pub uninterp spec fn pk_rem<I: Iterator>(p: &std::iter::Peekable<I>) -> Seq<I::Item>;
-pub assume_specification<I: Iterator>[ <std::iter::Peekable<I> as Iterator>::next ](p: &mut std::iter::Peekable<I>) -> (r: Option<I::Item>)
-    ensures
-        pk_rem(old(p)).len() == 0 ==> r.is_none() && pk_rem(final(p)) == pk_rem(old(p)),
-        pk_rem(old(p)).len() > 0 ==> r == Some(pk_rem(old(p))[0]) && pk_rem(final(p)) == pk_rem(old(p)).drop_first();
+// remaining items: vstd's (prophetic) IteratorSpec view; Peekable is assumed to obey vstd's iterator laws,
+// which gives `next` its specification (first remaining item, rest shifted)
+#[verifier::prophetic]
+pub open spec fn pk_rem<I: Iterator>(p: &std::iter::Peekable<I>) -> Seq<I::Item> { vstd::std_specs::iter::IteratorSpec::remaining(p) }
+#[verifier::external_body]
+pub broadcast proof fn axiom_peekable_laws<I: Iterator>(p: &std::iter::Peekable<I>)
+    ensures #[trigger] vstd::std_specs::iter::IteratorSpec::obeys_prophetic_iter_laws(p)
+{}
+// a non-prophetic termination measure: the number of remaining items (determined by the current state for the
+// iterators used here: Peekable over str::Chars / slice::Iter)
+pub uninterp spec fn pk_len<I: Iterator>(p: &std::iter::Peekable<I>) -> nat;
+#[verifier::external_body]
+pub broadcast proof fn axiom_pk_len<I: Iterator>(p: &std::iter::Peekable<I>)
+    ensures #[trigger] pk_len(p) == pk_rem(p).len()
+{}
 pub assume_specification<'a, I: Iterator>[ std::iter::Peekable::<I>::peek ](p: &'a mut std::iter::Peekable<I>) -> (r: Option<&'a I::Item>)
     ensures
         pk_rem(final(p)) == pk_rem(old(p)),
@@ -292,4 +310,33 @@ pub open spec fn op_variant(op: Operator) -> int {
 pub broadcast proof fn axiom_discr_operator(a: Operator, b: Operator)
     ensures (#[trigger] discr_spec(a) == #[trigger] discr_spec(b)) <==> op_variant(a) == op_variant(b)
 {}
+} // verus!
+
+::vstd::prelude::verus! {
+// ---- stage-2 lexer support
+#[verifier::external_body]
+pub fn fmt_sci(literal: &String, second: &PartialToken, third: &PartialToken) -> (r: String)
+    ensures r@ == sci_text(literal@, *second, *third)
+{ format!("{}{}{}", literal, second, third) }
+#[verifier::external_type_specification]
+#[verifier::external_body]
+pub struct ExParseBoolError(core::str::ParseBoolError);
+// Vec::extend appends the items of its argument; an Option yields 0 or 1 items
+pub uninterp spec fn into_iter_items<T, I: IntoIterator<Item = T>>(it: I) -> Seq<T>;
+pub assume_specification<T, A: core::alloc::Allocator, I: IntoIterator<Item = T>> [<Vec<T, A> as Extend<T>>::extend::<I>](v: &mut Vec<T, A>, it: I)
+    ensures final(v)@ == old(v)@ + into_iter_items::<T, I>(it);
+#[verifier::external_body]
+pub broadcast proof fn axiom_option_items<T>(o: Option<T>)
+    ensures #[trigger] into_iter_items::<T, Option<T>>(o) == (match o { Some(x) => seq![x], None => Seq::<T>::empty() })
+{}
+// str::parse::<F> is F's FromStr (std / the numeric instance): a deterministic, uninterpreted function of the text
+pub uninterp spec fn parse_spec<F: core::str::FromStr>(s: Seq<char>) -> Result<F, F::Err>;
+pub assume_specification<F: core::str::FromStr> [str::parse::<F>](s: &str) -> (r: Result<F, F::Err>)
+    ensures r == parse_spec::<F>(s@);
+// derived PartialEq of PartialToken (only comparisons against the unit variants are used)
+pub open spec fn pt_eq(a: PartialToken, b: PartialToken) -> bool {
+    match (a, b) { (PartialToken::Token(x), PartialToken::Token(y)) => tok_eq(x, y), _ => a == b }
+}
+pub uninterp spec fn tok_eq(a: Token, b: Token) -> bool;
+pub assume_specification [<PartialToken as PartialEq>::eq](a: &PartialToken, b: &PartialToken) -> (r: bool) ensures r == pt_eq(*a, *b);
 } // verus!
